@@ -1,4 +1,4 @@
 CONSTANTS Family = "small"
-INIT Init
-NEXT Next
+SPECIFICATION Spec
 INVARIANTS OneNamePerDirectory DoneValid Emit
+PROPERTY EventuallyStops
